@@ -178,14 +178,14 @@ func (w *world) amount(k *keyModel, mode, x, y int64) (int64, bool) {
 	}
 	// boundary distances around the minimum change
 	near := func() int64 {
-		switch y % 5 {
-		case 0:
+		switch r := y % 20; {
+		case r < 7:
 			return int64(mc) - 1
-		case 1:
+		case r < 11:
 			return int64(mc)
-		case 2:
+		case r < 14:
 			return int64(mc) + 1
-		case 3:
+		case r < 16:
 			return 1
 		}
 		return y % int64(2*mc+2)
@@ -213,10 +213,18 @@ func (w *world) amount(k *keyModel, mode, x, y int64) (int64, bool) {
 	case 7:
 		amt = total.Int64() - near()
 	case 9:
-		// one of the three largest outputs minus a boundary distance: with a much larger
-		// output present this drives the largest-first search and its replacement pass
+		// one of the three largest outputs, or the smallest, minus a boundary distance: with much
+		// larger outputs present this drives the largest-first search and its replacement pass
 		if len(L) > 0 {
-			amt = int64(L[len(L)-1-int(x%int64(minInt(len(L), 3)))].value) - near()
+			d := near()
+			i := len(L) - 1 - int(x%int64(minInt(len(L), 3)))
+			// the smallest output, when every other output is too large for the payment: the
+			// last candidate of the replacement pass
+			if s0 := int64(L[0].value); len(L) >= 2 && s0 > d && int64(L[1].value) > 4*(s0-d) && x%5 < 3 {
+				i = 0
+				w.run.Probe("payment_is_smallest_output_minus_boundary")
+			}
+			amt = int64(L[i].value) - d
 		}
 	default:
 		// payments of the order of the transaction fee itself (fee rate x 100..600 bytes): the
@@ -767,7 +775,7 @@ func generate(rng *kernel.RNG, idx int, tier string) *kernel.Plan {
 		return kernel.Step{Op: "param", A: []int64{int64(key), rate, mc, mode}}
 	}
 	withdraw := func(key int) kernel.Step {
-		mode := int64(pickW(rng, 15, 15, 10, 8, 10, 9, 5, 10, 10, 8))
+		mode := int64(pickW(rng, 14, 14, 10, 8, 9, 8, 5, 10, 10, 12))
 		x := rng.Int63() % 1000003
 		if mode == 0 {
 			x = genAmount(rng)
